@@ -39,7 +39,8 @@ JudgeSteps(steps, i, fsU, fsG) ==
            o  == [m |-> s.m, w |-> s.w, c |-> s.c, u |-> s.u,
                   resp |-> s.resp, eff |-> Range(s.eff), chg |-> Range(s.chg)]
            pu == Impl(FALSE, fsU, r)
-           pg == Impl(TRUE, fsG, r)
+           \* the variants differ only in Refused, i.e. only for an absolute relative part
+           pg == IF fsU = fsG /\ ~IsAbs(JoinC(s.u)) THEN pu ELSE Impl(TRUE, fsG, r)
            mu == Match(s, pu, fsU)
            mg == Match(s, pg, fsG)
            t  == Target(s.u)
